@@ -263,6 +263,11 @@ fn add_new_mapping(state: &mut State, new_key: &KeyCode, m: &Mapping) -> StepRes
   
   if is_action_mapping(m) {
     events.append(&mut release_action_mappings(state));
+  }
+  
+  // Any action key among the outputs uses up the absorbed keys,
+  // also when the output list ends in a modifier.
+  if m.to.iter().any(is_action_key) {
     events.append(&mut release_absorbed_keys(state, Some(*new_key)));
   }
   
